@@ -105,7 +105,14 @@ def gen_cases(spec, ctx):
         return
     if st == "basic-mixed-keys":
         for _ in range(spec["n"]):
-            keys = r.sample(["a", "b", "ab", "ba", 2, 3, 10, 12, "k", "ka", "kb", 2.5, True, "", "2"], r.randint(2, 5))
+            pool = ["a", "b", "ab", "ba", 2, 3, 10, 12, "k", "ka", "kb", 2.5, True, "", "2"]
+            if r.random() < 0.25:
+                # bytes keys (in-memory objects and pickles have them), incl. ones that are not valid UTF-8 and one that spells "k"
+                pool = pool + [{"$bytes": "6b"}, {"$bytes": "80"}, {"$bytes": "81"}, {"$bytes": "c3a9"}, {"$bytes": "ff6b"}] * 2
+            keys = []
+            for k in r.sample(pool, r.randint(2, 5)):
+                if k not in keys:
+                    keys.append(k)
             a = {"$dict": [[k, gen.gdoc(r, gen.PLAIN, 2, 3, 3)] for k in keys]}
             items = [[k, (gen.mutate(r, v, gen.PLAIN) if r.random() < 0.5 else v)] for k, v in a["$dict"]]
             if r.random() < 0.4:
@@ -113,8 +120,14 @@ def gen_cases(spec, ctx):
             if r.random() < 0.4:
                 items.append(["zz", 5])
             b = {"$dict": items}
+            # graphtage cannot edit a bytes string (StringNode edits iterate str characters), so documents with bytes keys are only
+            # compared with their own key-permuted copies (no key is edited there): the "equal at zero cost" half of the property
+            has_bytes = any(isinstance(k, dict) for k in keys)
             for ds in gen.DS:
-                yield {"family": "basic", "a": a, "b": b, "ds": ds, "le": "on", "seed": r.randrange(1 << 30)}
+                c = {"family": "basic", "a": a, "b": b, "ds": ds, "le": "on", "seed": r.randrange(1 << 30)}
+                if has_bytes:
+                    c["self_only"] = True
+                yield c
         return
     if st == "keys-of-different-types-with-equal-text":
         # keys whose str() coincide but whose types differ (2 / "2", 2.5 / "2.5", True / "True", None / "None"): an ordering of the
@@ -211,10 +224,17 @@ def check(case, ctx):
                 ctx.seen(case, True)
             return diags
         r = random.Random(case["seed"])
-        ref_cost, ref_pairing, ta, tb = observe(case)
         moved = 0
         variants = []
-        if case.get("all24") and isinstance(case["a"], dict) and len(case["a"]) == 4:
+        if case.get("self_only"):
+            if ctx is not None:
+                ctx.count("self_comparisons_with_bytes_keys")
+            moved = 1
+        else:
+            ref_cost, ref_pairing, ta, tb = observe(case)
+        if case.get("self_only"):
+            pass
+        elif case.get("all24") and isinstance(case["a"], dict) and len(case["a"]) == 4:
             items = list(case["a"].items())
             for p in itertools.permutations(items):
                 variants.append((dict(p), case["b"]))
